@@ -21,6 +21,49 @@ INFO = {
 TWO_N = lambda dim: Bin("Mul", Lit(2), Call("next_power_of_two", Bin("Add", dim, Lit(1), commutative=True)), commutative=True)
 
 
+def new_rules(ctx, rule):
+    """Prio2::new validation (shared with C16)"""
+    try:
+        f = ctx.fn(rule, name="new", self_adt="vdaf::prio2::Prio2")
+        g = ctx.guards(f)
+        # the proof-domain size 2*npo2(input_len+1), in either the plain or the checked form
+        def two_n(e):
+            if TWO_N(Arg(1))(e):
+                return True
+            txt = fmt(e)
+            return Mentions(Call("checked_add", Arg(1), Lit(1)))(e) and "checked_next_power_of_two" in txt and \
+                any(isinstance(x, tuple) and x[0] == "closure" for x in walk(e))
+        sz = lambda e: Mentions(Call("try_from"))(e) and two_n(e) or (("try_from" in fmt(e)) and two_n(e))
+        ctx.require_guard(rule, f, "Gt", sz, Call("generator_order"), desc="2n > generator_order() -> Err")
+        # every way in which computing 2n or converting it to u32 fails is refused
+        bad = [e for e in g.edges if e.cond[0] == "variant" and e.cond[2] in ("Err", "None") and e.cond[3] and sz(e.cond[1])]
+        key = "%s:%s:size-computation-failure-refused" % (rule, f.id)
+        if bad and all(set(rd.kind for rd in e.leads) <= {"err"} and e.leads for e in bad):
+            ctx.ok(rule, key, "overflow of input_len+1 / npo2 / *2 and a 2n that does not fit u32 all lead to Err (%d edges)" % len(bad), loc=f.loc)
+        else:
+            ctx.bad(rule, key, "a failing size computation (overflow or 2n not fitting u32) is not refused", loc=f.loc)
+        # the closure doubles the power of two
+        for x in [y for e in g.edges for y in walk(e.raw) if isinstance(y, tuple) and y[0] == "closure"][:1]:
+            cf = ctx.prog.by_did.get(x[3])
+            if cf is not None:
+                cg = ctx.guards(cf)
+                key = "%s:%s:doubling" % (rule, f.id)
+                if any(rd.expr is not None and Call("checked_mul", Arg(2), Lit(2))(rd.expr) for rd in cg.retdefs):
+                    ctx.ok(rule, key, "size = npo2(input_len + 1).checked_mul(2)", loc=f.loc)
+                else:
+                    ctx.bad(rule, key, "the proof-domain size is not twice the power of two", loc=f.loc)
+        acc = g.accept_defs(("err",))
+        key = "%s:%s:payload" % (rule, f.id)
+        if len(acc) == 1 and Agg("Result::Ok", Agg("Prio2", Arg(1)))(acc[0].expr):
+            ctx.ok(rule, key, "Ok(Prio2 { input_len })", loc=f.loc)
+        else:
+            ctx.bad(rule, key, "constructor does not store the given input_len", loc=f.loc)
+    except Skip:
+        pass
+    ctx.floor(rule, 3)
+
+
+
 def run(ctx):
     rule = "R-C19.T.role"
     try:
@@ -177,45 +220,7 @@ def run(ctx):
             pass
     ctx.floor(rule, 8)
 
-    rule = "R-C19.G.new"
-    try:
-        f = ctx.fn(rule, name="new", self_adt="vdaf::prio2::Prio2")
-        g = ctx.guards(f)
-        # the proof-domain size 2*npo2(input_len+1), in either the plain or the checked form
-        def two_n(e):
-            if TWO_N(Arg(1))(e):
-                return True
-            txt = fmt(e)
-            return Mentions(Call("checked_add", Arg(1), Lit(1)))(e) and "checked_next_power_of_two" in txt and \
-                any(isinstance(x, tuple) and x[0] == "closure" for x in walk(e))
-        sz = lambda e: Mentions(Call("try_from"))(e) and two_n(e) or (("try_from" in fmt(e)) and two_n(e))
-        ctx.require_guard(rule, f, "Gt", sz, Call("generator_order"), desc="2n > generator_order() -> Err")
-        # every way in which computing 2n or converting it to u32 fails is refused
-        bad = [e for e in g.edges if e.cond[0] == "variant" and e.cond[2] in ("Err", "None") and e.cond[3] and sz(e.cond[1])]
-        key = "%s:%s:size-computation-failure-refused" % (rule, f.id)
-        if bad and all(set(rd.kind for rd in e.leads) <= {"err"} and e.leads for e in bad):
-            ctx.ok(rule, key, "overflow of input_len+1 / npo2 / *2 and a 2n that does not fit u32 all lead to Err (%d edges)" % len(bad), loc=f.loc)
-        else:
-            ctx.bad(rule, key, "a failing size computation (overflow or 2n not fitting u32) is not refused", loc=f.loc)
-        # the closure doubles the power of two
-        for x in [y for e in g.edges for y in walk(e.raw) if isinstance(y, tuple) and y[0] == "closure"][:1]:
-            cf = ctx.prog.by_did.get(x[3])
-            if cf is not None:
-                cg = ctx.guards(cf)
-                key = "%s:%s:doubling" % (rule, f.id)
-                if any(rd.expr is not None and Call("checked_mul", Arg(2), Lit(2))(rd.expr) for rd in cg.retdefs):
-                    ctx.ok(rule, key, "size = npo2(input_len + 1).checked_mul(2)", loc=f.loc)
-                else:
-                    ctx.bad(rule, key, "the proof-domain size is not twice the power of two", loc=f.loc)
-        acc = g.accept_defs(("err",))
-        key = "%s:%s:payload" % (rule, f.id)
-        if len(acc) == 1 and Agg("Result::Ok", Agg("Prio2", Arg(1)))(acc[0].expr):
-            ctx.ok(rule, key, "Ok(Prio2 { input_len })", loc=f.loc)
-        else:
-            ctx.bad(rule, key, "constructor does not store the given input_len", loc=f.loc)
-    except Skip:
-        pass
-    ctx.floor(rule, 3)
+    new_rules(ctx, "R-C19.G.new")
 
     # --- the client may refuse only what the constructor refuses (capacity guards agree)
     rule = "R-C19.SIB.capacity"
